@@ -52,6 +52,17 @@ class SymStr:
         return "".join(str(p) for p in self.parts)
 
 
+class NumStr:
+    """str(x) / repr(x) of a symbolic number: an injective function of (type, value)  [trusted: distinct floats print
+    differently (shortest round-trip repr); ints print exactly]"""
+
+    def __init__(self, sym):
+        self.sym = sym
+
+    def __str__(self):
+        return "<numstr>"
+
+
 # ------------------------------------------------------------------------------ ndarray
 
 
